@@ -519,6 +519,36 @@ def _converters(ctx: Ctx):
         ctx.fail("generate_avps_from_defs:cases", gen.loc(),
                  f"encoder does not have exactly the four (container?, list?) cases: {kinds}",
                  rule="C03-R9")
+    # an attribute that is set yields its AVP: from the statement that reads the (non-None) value
+    # every path back to the loop over the definitions appends an AVP, iterates over the list
+    # value, or raises - none passes the attribute over (e.g. because its container is "empty")
+    ctx.inst("generate_avps_from_defs:set-attribute-is-encoded", rule="C03-R9")
+    from ..cfg import cfg_of
+    gg = cfg_of(gen, inline=False)
+    heads = [n for n in gg.nodes if n.kind == "iter" and ast.unparse(n.ast.iter).endswith(".avp_def")]
+    reads = [n for n in gg.nodes if n.kind == "stmt" and isinstance(n.ast, ast.Assign)
+             and isinstance(n.ast.value, ast.Call) and A.call_name(n.ast.value) == "getattr"
+             and len(n.ast.value.args) >= 2 and ast.unparse(n.ast.value.args[1]) == f"{loopvar}.attr_name"]
+    if not heads or not reads:
+        ctx.error("generate_avps_from_defs: loop over avp_def / read of the attribute value not found",
+                  rule="C03-R9")
+    else:
+        vname = reads[0].ast.targets[0].id if isinstance(reads[0].ast.targets[0], ast.Name) else None
+        goals = [n for n in gg.nodes if n.has_call(lambda nm, c: nm.endswith(".append") or nm.endswith(".extend"))]
+        goals += [n for n in gg.nodes if n.kind == "iter" and vname and ast.unparse(n.ast.iter) == vname]
+        rr = gg.reach([d for l, d in reads[0].succ if l != "exc"], blocked=goals, skip_labels=("exc",))
+        if heads[0] in rr or gg.exit in rr:
+            skip = sorted((n for n in rr if n.kind == "stmt" and isinstance(n.ast, ast.Continue)
+                           and n.ast.lineno > reads[0].ast.lineno), key=lambda n: n.ast.lineno)
+            ctx.fail("generate_avps_from_defs:set-attribute-is-encoded",
+                     gg.loc(skip[0]) if skip else gen.loc(),
+                     "an attribute whose value is not None can be passed over without an AVP being "
+                     "appended (a path from reading the value back to the loop over the definitions "
+                     "avoids every append): e.g. a grouped attribute set to a container with no member "
+                     "set - `requested_service_unit=RequestedServiceUnit()`, the RFC 4006 way of asking "
+                     "for any quota - is not encoded, decodes as None, and a received empty group is "
+                     "lost on re-encoding", rule="C03-R9",
+                     expected="exactly one AVP per set scalar attribute", observed="a path without append")
     # None is skipped, additional_avps appended last
     src = ast.unparse(gen.node)
     ctx.inst("generate_avps_from_defs:skip-none", rule="C03-R9")
